@@ -67,7 +67,7 @@ long VerifEnvLong(char const* pName, long Default) {
 }
 #endif /* ASL_VERIF */
 
-Word                 ErrorCount, WarnCount;
+LongWord             ErrorCount, WarnCount;
 static tExpectError* pExpectErrors = NULL;
 static Boolean       InExpect      = False;
 
